@@ -1,0 +1,318 @@
+//go:build verif
+
+package ansi
+
+// Contracts for contract-based deductive verification (read by /verif/govc). Comment-only.
+
+/*@
+-- ------------------------------------------------------------------ delivery invariant (C02 -> C03, C05, C09, C18)
+-- Every CSI the parser delivers has non-empty parameter lists with non-negative values. This is the
+-- precondition of emit, so it is proved at every emission site; consumers take it as their precondition.
+
+pred CSIParamsWF(seq CSI) =
+     forall i in 0..len(seq.Parameters):
+        (len(seq.Parameters[i]) >= 1 && (forall j in 0..len(seq.Parameters[i]): seq.Parameters[i][j] >= 0))
+
+func (p *Parser) emit(seq Sequence)
+  requires C02_csiwf: typeis(seq, "CSI") ==> CSIParamsWF(unbox(seq, "CSI"))
+  logs seq: seq
+  modifies nothing
+
+-- sync.Pool never hands out an object that is still referenced elsewhere, provided consumers return a
+-- sequence only once (Finish); assumed, see C08 for the part that is about schedules.
+freshresult (*pool).Get
+
+-- ------------------------------------------------------------------ actions
+
+func (p *Parser) execute(r rune)
+  ensures C02_c0:   (0 <= r && r <= 31) ==> (loglen("seq") == old(loglen("seq")) + 1 && logat("seq", old(loglen("seq"))) == boxed(C0(r)))
+  ensures C02_none: !(0 <= r && r <= 31) ==> loglen("seq") == old(loglen("seq"))
+  modifies nothing
+
+func (p *Parser) collect(r rune)
+  ensures C02_collect: len(p.intermediate) == old(len(p.intermediate)) + 1 && p.intermediate[len(p.intermediate)-1] == r
+  ensures C02_keep:    forall i in 0..old(len(p.intermediate)): p.intermediate[i] == old(p.intermediate[i])
+  ensures C02_nolog:   loglen("seq") == old(loglen("seq"))
+  ensures C02_alloc:   backing(p.intermediate) == old(backing(p.intermediate)) || backing(p.intermediate) >= old(brk())
+  modifies p.intermediate, elems(p.intermediate)
+
+func (p *Parser) param(r rune)
+  ensures C02_param: len(p.params) == old(len(p.params)) + 1 && p.params[len(p.params)-1] == r
+  ensures C02_keep:  forall i in 0..old(len(p.params)): p.params[i] == old(p.params[i])
+  ensures C02_nolog: loglen("seq") == old(loglen("seq"))
+  ensures C02_alloc: backing(p.params) == old(backing(p.params)) || backing(p.params) >= old(brk())
+  modifies p.params, elems(p.params)
+
+func (p *Parser) clear()
+  ensures C02_clear: len(p.intermediate) == 0 && len(p.params) == 0 && p.final == 0
+  ensures C02_nolog: loglen("seq") == old(loglen("seq"))
+  modifies p.intermediate, p.params, p.final
+
+-- ------------------------------------------------------------------ csiDispatch: parameter structure and exact values
+
+-- the parameter bytes collected by the state machine: digits, ';' and ':' only
+pred ParamBytes(p *Parser) =
+     forall i in 0..len(p.params): ((48 <= p.params[i] && p.params[i] <= 57) || p.params[i] == 59 || p.params[i] == 58)
+
+func (p *Parser) csiDispatch(r rune)
+  overflow checked
+  requires bytes: ParamBytes(p)
+  ensures C02_one: loglen("seq") == old(loglen("seq")) + 1 && typeis(logat("seq", old(loglen("seq"))), "CSI")
+  ensures C02_final: unbox(logat("seq", old(loglen("seq"))), "CSI").Final == r
+  ensures C02_noparams: old(len(p.params)) == 0 ==> len(unbox(logat("seq", old(loglen("seq"))), "CSI").Parameters) == 0
+  loop 1 invariant basics: 0 <= i && ps >= 0 && ps <= maxParam && csi.Final == r && len(p.params) == old(len(p.params)) && loglen("seq") == old(loglen("seq"))
+  loop 1 invariant bytes:  ParamBytes(p)
+  loop 1 invariant lists:  forall a in 0..len(csi.Parameters): (len(csi.Parameters[a]) >= 1 && (forall b in 0..len(csi.Parameters[a]): csi.Parameters[a][b] >= 0))
+  loop 1 invariant cur:    forall b in 0..len(param): param[b] >= 0
+  loop 1 invariant alloc:  backing(param) < brk() && backing(csi.Parameters) < brk()
+                        && (forall a in 0..len(csi.Parameters): backing(csi.Parameters[a]) < brk())
+
+-- ------------------------------------------------------------------ more actions
+
+func (p *Parser) escapeDispatch(r rune)
+  ensures C02_one:   loglen("seq") == old(loglen("seq")) + 1 && typeis(logat("seq", old(loglen("seq"))), "ESC")
+  ensures C02_final: unbox(logat("seq", old(loglen("seq"))), "ESC").Final == r
+  ensures C02_inter: len(unbox(logat("seq", old(loglen("seq"))), "ESC").Intermediate) == old(len(p.intermediate))
+                  && (forall i in 0..old(len(p.intermediate)): unbox(logat("seq", old(loglen("seq"))), "ESC").Intermediate[i] == old(p.intermediate[i]))
+
+func (p *Parser) print(r rune)
+  ensures C02_one: loglen("seq") == old(loglen("seq")) + 1 && typeis(logat("seq", old(loglen("seq"))), "Print")
+  ensures C02_width: unbox(logat("seq", old(loglen("seq"))), "Print").Width >= 0
+  ensures C02_kept: p.intermediate == old(p.intermediate) && p.params == old(p.params)
+  loop 1 invariant w: w >= 0 && loglen("seq") == old(loglen("seq"))
+
+func (p *Parser) put(r rune)
+  ensures C02_put: len(p.dcs.Data) == old(len(p.dcs.Data)) + 1 && p.dcs.Data[len(p.dcs.Data)-1] == r
+  ensures C02_nolog: loglen("seq") == old(loglen("seq"))
+
+func (p *Parser) oscPut(r rune)
+  ensures C02_put: len(p.oscData) == old(len(p.oscData)) + 1 && p.oscData[len(p.oscData)-1] == r
+  ensures C02_nolog: loglen("seq") == old(loglen("seq"))
+
+func (p *Parser) oscEnd()
+  ensures C02_one: loglen("seq") == old(loglen("seq")) + 1 && typeis(logat("seq", old(loglen("seq"))), "OSC")
+  ensures C02_payload: len(unbox(logat("seq", old(loglen("seq"))), "OSC").Payload) == old(len(p.oscData))
+                    && (forall i in 0..old(len(p.oscData)): unbox(logat("seq", old(loglen("seq"))), "OSC").Payload[i] == old(p.oscData[i]))
+  ensures C02_reset: len(p.oscData) == 0
+
+func (p *Parser) unhook()
+  ensures C02_one: loglen("seq") == old(loglen("seq")) + 1 && typeis(logat("seq", old(loglen("seq"))), "DCS")
+  ensures C02_dcs: unbox(logat("seq", old(loglen("seq"))), "DCS") == old(p.dcs)
+
+func (p *Parser) apcUnhook()
+  ensures C02_one: loglen("seq") == old(loglen("seq")) + 1 && typeis(logat("seq", old(loglen("seq"))), "APC")
+  ensures C02_reset: len(p.apcData) == 0
+
+-- ------------------------------------------------------------------ state functions: the Williams table, 7-bit codes
+-- (0x18, 0x1A, 0x1B are taken by `anywhere` before a state function is consulted)
+
+-- the parameter bytes live in their own backing array (collect/param never write into each other's)
+pred Sep(p *Parser) = backing(p.params) == 0 || backing(p.params) != backing(p.intermediate)
+
+-- exit actions match states (Williams: osc_end / unhook run when the string state is left; APC extension)
+pred ExitOK(p *Parser, s stateFn) =
+     (s == fn("oscString") ==> isbound(p.exit, "oscEnd", p))
+  && (s == fn("dcsPassthrough") ==> isbound(p.exit, "unhook", p))
+  && (s == fn("apc") ==> isbound(p.exit, "apcUnhook", p))
+  && ((s != fn("oscString") && s != fn("dcsPassthrough") && s != fn("apc")) ==> p.exit == nil)
+
+pred StateOK(s stateFn) =
+     s == fn("ground") || s == fn("escape") || s == fn("escapeIntermediate") || s == fn("ss3")
+  || s == fn("csiEntry") || s == fn("csiParam") || s == fn("csiIntermediate") || s == fn("csiIgnore")
+  || s == fn("dcsEntry") || s == fn("dcsParam") || s == fn("dcsIntermediate") || s == fn("dcsIgnore") || s == fn("dcsPassthrough")
+  || s == fn("oscString") || s == fn("sosPm") || s == fn("apc")
+
+pred C0x(r rune) = (0 <= r && r <= 23) || r == 25 || (28 <= r && r <= 31)
+pred Kept(p *Parser) = p.intermediate == old(p.intermediate) && p.params == old(p.params)
+pred NoLog(p *Parser) = loglen("seq") == old(loglen("seq"))
+pred Ignored(p *Parser) = NoLog(p) && Kept(p)
+pred Executed(p *Parser, r rune) =
+     loglen("seq") == old(loglen("seq")) + 1 && logat("seq", old(loglen("seq"))) == boxed(C0(r)) && Kept(p)
+pred Collected(p *Parser, r rune) =
+     NoLog(p) && p.params == old(p.params)
+  && len(p.intermediate) == old(len(p.intermediate)) + 1 && p.intermediate[len(p.intermediate)-1] == r
+pred Paramed(p *Parser, r rune) =
+     NoLog(p) && p.intermediate == old(p.intermediate)
+  && len(p.params) == old(len(p.params)) + 1 && p.params[len(p.params)-1] == r
+pred DispatchedCSI(p *Parser, r rune) =
+     loglen("seq") == old(loglen("seq")) + 1 && typeis(logat("seq", old(loglen("seq"))), "CSI")
+  && unbox(logat("seq", old(loglen("seq"))), "CSI").Final == r
+pred DispatchedESC(p *Parser, r rune) =
+     loglen("seq") == old(loglen("seq")) + 1 && typeis(logat("seq", old(loglen("seq"))), "ESC")
+  && unbox(logat("seq", old(loglen("seq"))), "ESC").Final == r
+
+func ground(r rune, p *Parser) stateFn
+  requires exit: ExitOK(p, fn("ground"))
+  ensures C02_exit: ExitOK(p, result) && (result == nil || StateOK(result))
+  requires p: p != nil
+  ensures C02_c0:    C0x(r) ==> (result == fn("ground") && Executed(p, r))
+  ensures C02_print: (32 <= r && !C0x(r)) ==> (result == fn("ground") && loglen("seq") == old(loglen("seq")) + 1
+                        && typeis(logat("seq", old(loglen("seq"))), "Print"))
+
+func csiEntry(r rune, p *Parser) stateFn
+  requires exit: ExitOK(p, fn("csiEntry"))
+  ensures C02_exit: ExitOK(p, result) && (result == nil || StateOK(result))
+  requires p: p != nil && ParamBytes(p) && Sep(p)
+  ensures C02_c0:      C0x(r) ==> (result == fn("csiEntry") && Executed(p, r))
+  ensures C02_del:     r == 127 ==> (result == fn("csiEntry") && Ignored(p))
+  ensures C02_param:   ((48 <= r && r <= 57) || r == 59 || r == 58) ==> (result == fn("csiParam") && Paramed(p, r))
+  ensures C02_private: (60 <= r && r <= 63) ==> (result == fn("csiParam") && Collected(p, r))
+  ensures C02_inter:   (32 <= r && r <= 47) ==> (result == fn("csiIntermediate") && Collected(p, r))
+  ensures C02_final:   (64 <= r && r <= 126) ==> (result == fn("ground") && DispatchedCSI(p, r))
+  ensures C02_bytes:   ParamBytes(p)
+
+func csiParam(r rune, p *Parser) stateFn
+  requires exit: ExitOK(p, fn("csiParam"))
+  ensures C02_exit: ExitOK(p, result) && (result == nil || StateOK(result))
+  requires p: p != nil && ParamBytes(p) && Sep(p)
+  ensures C02_c0:      C0x(r) ==> (result == fn("csiParam") && Executed(p, r))
+  ensures C02_del:     r == 127 ==> (result == fn("csiParam") && Ignored(p))
+  ensures C02_param:   ((48 <= r && r <= 57) || r == 59 || r == 58) ==> (result == fn("csiParam") && Paramed(p, r))
+  ensures C02_ignore:  (60 <= r && r <= 63) ==> (result == fn("csiIgnore") && Ignored(p))
+  ensures C02_inter:   (32 <= r && r <= 47) ==> (result == fn("csiIntermediate") && Collected(p, r))
+  ensures C02_final:   (64 <= r && r <= 126) ==> (result == fn("ground") && DispatchedCSI(p, r))
+  ensures C02_bytes:   ParamBytes(p)
+
+func csiIntermediate(r rune, p *Parser) stateFn
+  requires exit: ExitOK(p, fn("csiIntermediate"))
+  ensures C02_exit: ExitOK(p, result) && (result == nil || StateOK(result))
+  requires p: p != nil && ParamBytes(p) && Sep(p)
+  ensures C02_c0:      C0x(r) ==> (result == fn("csiIntermediate") && Executed(p, r))
+  ensures C02_del:     r == 127 ==> (result == fn("csiIntermediate") && Ignored(p))
+  ensures C02_inter:   (32 <= r && r <= 47) ==> (result == fn("csiIntermediate") && Collected(p, r))
+  ensures C02_ignore:  (48 <= r && r <= 63) ==> (result == fn("csiIgnore") && Ignored(p))
+  ensures C02_final:   (64 <= r && r <= 126) ==> (result == fn("ground") && DispatchedCSI(p, r))
+  ensures C02_bytes:   ParamBytes(p)
+
+func csiIgnore(r rune, p *Parser) stateFn
+  requires exit: ExitOK(p, fn("csiIgnore"))
+  ensures C02_exit: ExitOK(p, result) && (result == nil || StateOK(result))
+  requires p: p != nil
+  ensures C02_c0:      C0x(r) ==> (result == fn("csiIgnore") && Executed(p, r))
+  ensures C02_ignore:  ((32 <= r && r <= 63) || r == 127) ==> (result == fn("csiIgnore") && Ignored(p))
+  ensures C02_final:   (64 <= r && r <= 126) ==> (result == fn("ground") && Ignored(p))
+
+func escapeIntermediate(r rune, p *Parser) stateFn
+  requires exit: ExitOK(p, fn("escapeIntermediate"))
+  ensures C02_exit: ExitOK(p, result) && (result == nil || StateOK(result))
+  requires p: p != nil
+  ensures C02_c0:      C0x(r) ==> (result == fn("escapeIntermediate") && Executed(p, r))
+  ensures C02_del:     r == 127 ==> (result == fn("escapeIntermediate") && Ignored(p))
+  ensures C02_inter:   (32 <= r && r <= 47) ==> (result == fn("escapeIntermediate") && Collected(p, r))
+  ensures C02_final:   (48 <= r && r <= 126) ==> (result == fn("ground") && DispatchedESC(p, r))
+
+func ss3(r rune, p *Parser) stateFn
+  requires exit: ExitOK(p, fn("ss3"))
+  ensures C02_exit: ExitOK(p, result) && (result == nil || StateOK(result))
+  requires p: p != nil
+  ensures C02_c0:      C0x(r) ==> (result == fn("ss3") && Executed(p, r))
+  ensures C02_del:     r == 127 ==> (result == fn("ss3") && Ignored(p))
+  ensures C02_final:   (32 <= r && r <= 126) ==> (result == fn("ground") && loglen("seq") == old(loglen("seq")) + 1
+                          && logat("seq", old(loglen("seq"))) == boxed(SS3(r)) && Kept(p))
+
+func dcsEntry(r rune, p *Parser) stateFn
+  requires exit: ExitOK(p, fn("dcsEntry"))
+  ensures C02_exit: ExitOK(p, result) && (result == nil || StateOK(result))
+  requires p: p != nil
+  ensures C02_c0:      (C0x(r) || r == 127) ==> (result == fn("dcsEntry") && Ignored(p))
+  ensures C02_inter:   (32 <= r && r <= 47) ==> (result == fn("dcsIntermediate") && Collected(p, r))
+  ensures C02_colon:   r == 58 ==> (result == fn("dcsIgnore") && Ignored(p))
+  ensures C02_param:   ((48 <= r && r <= 57) || r == 59) ==> (result == fn("dcsParam") && Paramed(p, r))
+  ensures C02_private: (60 <= r && r <= 63) ==> (result == fn("dcsParam") && Collected(p, r))
+  ensures C02_final:   (64 <= r && r <= 126) ==> (result == fn("dcsPassthrough"))
+
+func dcsParam(r rune, p *Parser) stateFn
+  requires exit: ExitOK(p, fn("dcsParam"))
+  ensures C02_exit: ExitOK(p, result) && (result == nil || StateOK(result))
+  requires p: p != nil
+  ensures C02_c0:      (C0x(r) || r == 127) ==> (result == fn("dcsParam") && Ignored(p))
+  ensures C02_param:   ((48 <= r && r <= 57) || r == 59) ==> (result == fn("dcsParam") && Paramed(p, r))
+  ensures C02_ignore:  (r == 58 || (60 <= r && r <= 63)) ==> (result == fn("dcsIgnore") && Ignored(p))
+  ensures C02_inter:   (32 <= r && r <= 47) ==> (result == fn("dcsIntermediate") && Collected(p, r))
+  ensures C02_final:   (64 <= r && r <= 126) ==> (result == fn("dcsPassthrough"))
+
+func dcsIntermediate(r rune, p *Parser) stateFn
+  requires exit: ExitOK(p, fn("dcsIntermediate"))
+  ensures C02_exit: ExitOK(p, result) && (result == nil || StateOK(result))
+  requires p: p != nil
+  ensures C02_c0:      (C0x(r) || r == 127) ==> (result == fn("dcsIntermediate") && Ignored(p))
+  ensures C02_inter:   (32 <= r && r <= 47) ==> (result == fn("dcsIntermediate") && Collected(p, r))
+  ensures C02_ignore:  (48 <= r && r <= 63) ==> (result == fn("dcsIgnore") && Ignored(p))
+  ensures C02_final:   (64 <= r && r <= 126) ==> (result == fn("dcsPassthrough"))
+
+func dcsIgnore(r rune, p *Parser) stateFn
+  requires exit: ExitOK(p, fn("dcsIgnore"))
+  ensures C02_exit: ExitOK(p, result) && (result == nil || StateOK(result))
+  requires p: p != nil
+  ensures C02_all:     (0 <= r && r <= 127) ==> (result == fn("dcsIgnore") && Ignored(p))
+
+func dcsPassthrough(r rune, p *Parser) stateFn
+  requires exit: ExitOK(p, fn("dcsPassthrough"))
+  ensures C02_exit: ExitOK(p, result) && (result == nil || StateOK(result))
+  requires p: p != nil
+  ensures C02_put:     ((C0x(r) || (32 <= r && r <= 126)) ==> (result == fn("dcsPassthrough") && NoLog(p)
+                          && len(p.dcs.Data) == old(len(p.dcs.Data)) + 1 && p.dcs.Data[len(p.dcs.Data)-1] == r))
+  ensures C02_del:     r == 127 ==> (result == fn("dcsPassthrough") && NoLog(p) && len(p.dcs.Data) == old(len(p.dcs.Data)))
+
+func sosPm(r rune, p *Parser) stateFn
+  requires exit: ExitOK(p, fn("sosPm"))
+  ensures C02_exit: ExitOK(p, result) && (result == nil || StateOK(result))
+  requires p: p != nil
+  ensures C02_all:     (0 <= r && r <= 127) ==> (result == fn("sosPm") && Ignored(p))
+
+func apc(r rune, p *Parser) stateFn
+  requires exit: ExitOK(p, fn("apc"))
+  ensures C02_exit: ExitOK(p, result) && (result == nil || StateOK(result))
+  requires p: p != nil
+  ensures C02_c0:      C0x(r) ==> (result == fn("apc") && Ignored(p) && len(p.apcData) == old(len(p.apcData)))
+  ensures C02_data:    (32 <= r && r <= 127) ==> (result == fn("apc") && NoLog(p)
+                          && len(p.apcData) == old(len(p.apcData)) + 1 && p.apcData[len(p.apcData)-1] == r)
+
+func (p *Parser) hook(r rune)
+  ensures C02_exit: isbound(p.exit, "unhook", p)
+  ensures C02_log:  loglen("seq") >= old(loglen("seq"))
+
+func (p *Parser) oscStart()
+  ensures C02_exit: isbound(p.exit, "oscEnd", p)
+  ensures C02_nolog: loglen("seq") == old(loglen("seq"))
+  modifies p.exit
+
+func oscString(r rune, p *Parser) stateFn
+  requires p: p != nil
+  requires exit: ExitOK(p, fn("oscString"))
+  ensures C02_exit: ExitOK(p, result) && StateOK(result)
+  ensures C02_bel:  r == 7 ==> (result == fn("ground") && loglen("seq") == old(loglen("seq")) + 1
+                       && typeis(logat("seq", old(loglen("seq"))), "OSC")
+                       && len(unbox(logat("seq", old(loglen("seq"))), "OSC").Payload) == old(len(p.oscData)))
+  ensures C02_c0:   (C0x(r) && r != 7) ==> (result == fn("oscString") && NoLog(p) && len(p.oscData) == old(len(p.oscData)))
+  ensures C02_data: (32 <= r && r <= 127) ==> (result == fn("oscString") && NoLog(p)
+                       && len(p.oscData) == old(len(p.oscData)) + 1 && p.oscData[len(p.oscData)-1] == r)
+
+func escape(r rune, p *Parser) stateFn
+  requires p: p != nil
+  requires exit: ExitOK(p, fn("escape"))
+  ensures C02_exit:  ExitOK(p, result) && StateOK(result)
+  ensures C02_c0:    C0x(r) ==> (result == fn("escape") && Executed(p, r))
+  ensures C02_inter: (32 <= r && r <= 47) ==> (result == fn("escapeIntermediate") && Collected(p, r))
+  ensures C02_final: ((48 <= r && r <= 78) || (81 <= r && r <= 87) || r == 89 || r == 90 || (96 <= r && r <= 127))
+                       ==> (result == fn("ground") && DispatchedESC(p, r))
+  ensures C02_st:    r == 92 ==> (result == fn("ground") && (old(p.ignoreST) ? NoLog(p) : DispatchedESC(p, r)))
+  ensures C02_ss3:   r == 79 ==> (result == fn("ss3") && Ignored(p))
+  ensures C02_dcs:   r == 80 ==> (result == fn("dcsEntry") && NoLog(p) && len(p.intermediate) == 0 && len(p.params) == 0)
+  ensures C02_sos:   (r == 88 || r == 94) ==> (result == fn("sosPm") && Ignored(p))
+  ensures C02_apc:   r == 95 ==> (result == fn("apc") && Ignored(p))
+  ensures C02_csi:   r == 91 ==> (result == fn("csiEntry") && NoLog(p) && len(p.intermediate) == 0 && len(p.params) == 0)
+  ensures C02_osc:   r == 93 ==> (result == fn("oscString") && Ignored(p))
+  ensures C02_ign:   !p.ignoreST
+
+-- anywhere: CAN, SUB, ESC and end of input leave any state, running the exit action exactly once.
+func anywhere(r rune, p *Parser) stateFn
+  requires p: p != nil && StateOK(p.state) && ExitOK(p, p.state) && ParamBytes(p) && Sep(p)
+  ensures C02_exit:   ExitOK(p, result) && (result == nil || StateOK(result))
+  ensures C02_eof:    r == -1 ==> (result == nil && loglen("seq") == old(loglen("seq")) + (old(p.exit) != nil ? 1 : 0))
+  ensures C02_cancel: (r == 24 || r == 26) ==> (result == fn("ground")
+                         && loglen("seq") == old(loglen("seq")) + (old(p.exit) != nil ? 2 : 1)
+                         && logat("seq", loglen("seq") - 1) == boxed(C0(r)))
+  ensures C02_esc:    r == 27 ==> (result == fn("escape") && loglen("seq") == old(loglen("seq")) + (old(p.exit) != nil ? 1 : 0)
+                         && len(p.intermediate) == 0 && len(p.params) == 0)
+@*/
